@@ -66,6 +66,25 @@ int main(int argc, char** argv) {
     }
     c.add("local_times");
   }
+  // ---- offset date-times at EVERY second of the days around special epoch values (int32 epoch-seconds limits = the value
+  //      that doubles as kInvalidEpochSeconds, the AceTime and Unix epochs, the Unix 2038 limit) x 6 offsets
+  {
+    static const int days[][3] = {{1931, 12, 13}, {1931, 12, 14}, {2068, 1, 18}, {2068, 1, 19}, {1999, 12, 31}, {2000, 1, 1}, {1970, 1, 1}, {2038, 1, 19}};
+    static const int offs[] = {0, 60, -480, 570, -1, 840};
+    for (int s = a.shard; s < 86400; s += a.nshards) {
+      int h = s / 3600, mi = s % 3600 / 60, se = s % 60;
+      for (auto& d : days) for (int m : offs) {
+        OffsetDateTime o = OffsetDateTime::forComponents(d[0], d[1], d[2], h, mi, se, TimeOffset::forMinutes(m));
+        std::string w = fmt("%04d-%02d-%02dT%02d:%02d:%02d", d[0], d[1], d[2], h, mi, se) + off_text(m);
+        if (pr(o) != w) violation("c15:OffsetDateTime-print", fmt("{\"got\":%s,\"want\":%s}", jstr(cp.s).c_str(), jstr(w).c_str()));
+        OffsetDateTime b = OffsetDateTime::forDateString(w.c_str());
+        if (!(b == o) || b.isError()) violation("c15:OffsetDateTime-parse", fmt("{\"text\":%s}", jstr(w).c_str()));
+        OffsetDateTime bf = OffsetDateTime::forDateString(FPSTR(w.c_str()));
+        if (!(bf == o) || bf.isError()) violation("c15:OffsetDateTime-parse-F", fmt("{\"text\":%s}", jstr(w).c_str()));
+        c.add("offset_datetimes");
+      }
+    }
+  }
   if (a.shard == 0) {
     // ---- offsets within +-99:59
     for (int m = -5999; m <= 5999; m++) {
